@@ -572,6 +572,7 @@ fn dense_count(thorough: bool) -> usize {
 fn name_pairs() -> Vec<(String, String)> {
     let mut pairs: Vec<(String, String)> = vcore::collide::pairs().iter().map(|(_, a, b)| (a.clone(), b.clone())).collect();
     pairs.extend(vcore::sjis::suffix_pairs());
+    pairs.extend(vcore::sjis::case_pairs());
     pairs
 }
 
